@@ -144,6 +144,9 @@ def main():
             else:
                 res["status"] = "inconclusive"
                 res["message"] = "; ".join(m.message for m in msgs)
+        if api.STATS.get("stub_gaps") and res.get("status") == "confirmed":
+            res["status"] = "inconclusive"
+            res["message"] = "environment stub does not model how the code uses it: " + "; ".join(api.STUB_GAP_NOTES)
         res["reached"] = api.STATS["reached"]
         res["nontrivial"] = api.STATS["nontrivial"]
         res["skipped_known"] = api.STATS["skipped_known"]
